@@ -5,7 +5,9 @@ configuration.
 
 ```
 V <N> <C> <op>;<op>;…
-op    = h:<prev>:<height>:<ts>:<cfg>:<bk>:<sigs>
+op    = h:<prev>:<height>:<ts>:<cfg>:<bk>:<sigs>      header through AddHeaders
+      | k:<prev>:<height>:<ts>:<cfg>:<bk>:<sigs>      the same header as an empty BLOCK through AddBlock (correct block root)
+      | K:<prev>:<height>:<ts>:<cfg>:<bk>:<sigs>      … with a wrong block root
 prev  = t (hash of the newest accepted header) | k<j> (hash of the stored header at height j; unknown if none) | x (unknown hash)
 cfg   = L<k>                      no new configuration, LastConfigBlockNum = k
       | N,<c>,<k>,<ids>           new configuration {C = c, peer ids}, LastConfigBlockNum = k
@@ -14,8 +16,9 @@ ids/bk = key numbers joined by '.', '-' = empty          (key i has peer id i; t
 sigs  = tokens joined by '.', '-' = empty:  s<i> signature of key i over THIS header's hash | w<i> signature of key i over
         another message | j bytes that are not a signature | g a well-formed signature that verifies under no key
 ```
-Output: one verdict per op (`ok` / `rej:<kind>`), then `| hh=<header height> bh=<hh>` (`bh`: the harness afterwards delivers
-every accepted header as an empty block through `AddBlock`, which runs the same `verifyHeader` on the same store).
+Output: one verdict per op (`ok` / `noop` = block at or below the committed height / `rej:<kind>`), then
+`| hh=<header height> bh=<block height>`: at the end the harness delivers the indexed headers above the committed height as
+empty blocks through `AddBlock`, in order, until one is refused (`Model.SyncHeader.addBlock` predicts that too).
 When the shipped and the repaired check differ the line is `asShipped ## sound`.
 -/
 namespace OntVerif.Driver.C32
@@ -63,29 +66,54 @@ def parsePrev (st : DStore) (s : String) : Option Nat :=
     (s.drop 1).toNat?.map fun j => match st.hdrs[j]? with | some h => h.hash | none => unknownHash
   else none
 
-def parseOp (st : DStore) (hash : Nat) (op : String) : Option DHdr :=
+inductive OpKind | header | block | badRootBlock
+  deriving DecidableEq
+
+def parseOp (st : DStore) (hash : Nat) (op : String) : Option (OpKind × DHdr) :=
   match op.splitOn ":" with
-  | ["h", prev, height, ts, cfg, bk, sigs] =>
-    match parsePrev st prev, height.toNat?, ts.toNat?, parseCfg cfg, natList bk, sigList hash sigs with
-    | some p, some hgt, some t, some pl, some b, some sg => some ⟨hash, hgt, p, t, pl, b, sg⟩
-    | _, _, _, _, _, _ => none
+  | [tag, prev, height, ts, cfg, bk, sigs] =>
+    let kind? : Option OpKind :=
+      if tag == "h" then some .header else if tag == "k" then some .block else if tag == "K" then some .badRootBlock else none
+    match kind?, parsePrev st prev, height.toNat?, ts.toNat?, parseCfg cfg, natList bk, sigList hash sigs with
+    | some kd, some p, some hgt, some t, some pl, some b, some sg => some (kd, ⟨hash, hgt, p, t, pl, b, sg⟩)
+    | _, _, _, _, _, _, _ => none
   | _ => none
+
+def verdict (r : Option Rej) (noop : Bool) : String :=
+  match r with
+  | some e => "rej:" ++ e.name
+  | none => if noop then "noop" else "ok"
+
+/-- the final phase: indexed headers above the committed height, as blocks, until one is refused -/
+def commitAll (v : Variant) : Nat → DStore → DStore
+  | 0, st => st
+  | fuel + 1, st =>
+    match st.hdrs[st.blockHeight + 1]? with
+    | none => st
+    | some h =>
+      match addBlock v parseSig vf id st h true with
+      | (st', none) => commitAll v fuel st'
+      | (_, some _) => st
 
 def run (v : Variant) : DStore → Nat → List String → List String → Option String
   | st, _, [], acc =>
     let hh := st.hdrs.length - 1
-    some (String.intercalate " " acc.reverse ++ s!" | hh={hh} bh={hh}")
+    let fin := commitAll v st.hdrs.length st
+    some (String.intercalate " " acc.reverse ++ s!" | hh={hh} bh={fin.blockHeight}")
   | st, i, op :: rest, acc =>
     match parseOp st (i + 1) op with
     | none => none
-    | some h =>
-      match addHeader v parseSig vf id st h with
-      | .ok st' => run v st' (i + 1) rest ("ok" :: acc)
-      | .error e => run v st (i + 1) rest (("rej:" ++ e.name) :: acc)
+    | some (.header, h) =>
+      let (st', r) := stepHeader v parseSig vf id st h
+      run v st' (i + 1) rest (verdict r false :: acc)
+    | some (kd, h) =>
+      let (st', r) := addBlock v parseSig vf id st h (kd == .block)
+      run v st' (i + 1) rest (verdict r (decide (h.height ≤ st.blockHeight)) :: acc)
 
 def genesis (n c : Nat) : DStore :=
   let ids := List.range n
-  ⟨[⟨0, 0, unknownHash, 0, some ⟨4294967295, some ⟨c, ids⟩⟩, [], []⟩], [(0, ids)]⟩
+  let g : DHdr := ⟨0, 0, unknownHash, 0, some ⟨4294967295, some ⟨c, ids⟩⟩, [], []⟩
+  ⟨[g], [g], [(0, ids)], 0⟩
 
 def handle (line : String) : String :=
   match fields line with
